@@ -42,6 +42,11 @@ CHECKS = {
         text="C04_functions_partial (NoDup names -> registry = every def exactly once with dotted name and line), C04_classes_lines, C04_classes_names_partial; C04_functions_refuted_same_name and C04_classes_names_refuted_nested are the two recorded findings. Each run compares every generated def/class (any nesting) with pyscn's rows: name, StartLine, EndLine, exactly once; one __main__ row.",
         note="The full statement is false on the current tree for two input classes (known findings F3b, F20), each matched narrowly. End lines and decorators are checked by the harness (python3 ast as independent reference), not modelled.",
         design="5 C04"),
+    "C05": dict(
+        technique="Coq proof per emission site that the emitted list/value is invariant under every permutation of the Go map's iteration order (total-order sort on unique keys, argmin choice, ids after sort, sums over sorted keys, budgeted DFS over sorted graph), comparison keys and sort-before-range patterns regenerated from the Go AST; interleaving independence of the task pool; ties: N repeated CLI runs under GOMAXPROCS 1/2/16 diffed, production sort/tie-break code vs the models on injected and repeated orders",
+        text="Props/C05.v: 30 site_det theorems (Permutation l l' -> NoDup keys -> emit l = emit l'), sort_by_det / any_sort_by (any correct sort gives the model's result), C05_pipeline (any interleaving of slot-disjoint tasks gives the same response), 10 C05_orig_*_refuted witnesses for the original code. Every run: 6 (thorough 30) runs of pyscn analyze --json / check per option set on testdata and generated tie-rich projects must give identical reports apart from timestamps/durations/version; 8 driver ops run each site in several arrival orders and are compared with the Coq models.",
+        note="partial: all order/value nondeterminism found (F4, F11 plus LSH pair order) repaired by 8 fix: commits. Pipeline theorem assumes no shared mutable state between analyses (tested by GOMAXPROCS runs and a -race build in the thorough tier, not proved; Go scheduler and memory model not modelled). C05_orig_float_sum_refuted uses Coq's kernel primitive floats. A dropped tie-breaker whose input is already ordered upstream is reported as broken proof (no-failing-input-found).",
+        design="5 C05"),
     "C06": dict(
         technique="Coq proofs: isolation of a failing file in the per-file service loops (any analyse function, list and position), exit status in {0,1}, exponential lower bound for calculateMaxDepth (refutes the time clause: finding F21); malformed-input stream through the real binary for the un-modelled part",
         text="Theorems C06_isolation, C06_results_are_per_file, C06_exit_status, C06_depth_exponential_refuted (no axioms). Each run: ~35-40 malformed contents (syntax errors, truncations, bit flips, binary, encodings, CR/CRLF, long lines, deep parentheses) analysed alone and mixed into a project of good files: exit status in {0,1}, no panic/goroutine trace, time bound, report sections of the good files identical to the baseline; 4 formats written; nesting depth up to 160/320; calculateMaxDepth vs its Coq model on random graphs.",
